@@ -205,8 +205,18 @@ template <class Q, class Arg> struct Runner {
                     const V& v = pv[pi];
                     std::unique_ptr<PDU> a(prior(pr)), b(prior(pr));
                     Q& qa = static_cast<Q&>(*a); Q& qb = static_cast<Q&>(*b);
+                    auto s0 = snapshot(*a);            // the prior state, before the field is touched
                     try { (qa.*set)(basev); (qb.*set)(v); } catch (std::exception& e_) { if (!mc::tins_exc(e_)) throw; if (bl == 0 && (int)pi < w) rejected[pi] = 1; continue; }
                     auto sa = snapshot(*a), sb = snapshot(*b);
+                    // no other getter may move relative to the PRIOR state (a setter that clobbers a neighbour does so for every value)
+                    for (auto& kv : s0) {
+                        if (kv.first == k || aliased(kv.first, k) || always_derived_key(kv.first) || list_key(kv.first)) continue;
+                        if (sb[kv.first] != kv.second) {
+                            R.violation("field:disturbs-neighbour:" + k + "->" + kv.first, kv.first + " changed from " + kv.second + " to " + sb[kv.first] + " when " + k + " was set to " + show(v), ctx + " value=" + show(v));
+                            fi_ok = false;
+                        }
+                    }
+                    if (!fi_ok) break;
                     for (auto& kv : sa) {
                         if (kv.first == k || aliased(kv.first, k) || always_derived_key(kv.first) || list_key(kv.first)) continue;
                         if (sb[kv.first] != kv.second) {
